@@ -430,6 +430,33 @@ func (in *inliner) rewriteList(list *[]ast.Stmt, stack map[*ast.FuncDecl]bool, d
 					}
 				}
 			}
+		case *ast.IfStmt:
+			// (D) if h(…) / if !h(…) with a multi-statement helper returning one value: the call is the
+			// first thing the statement evaluates, so it can be hoisted in front of it
+			if x.Init == nil {
+				slot := &x.Cond
+				for {
+					if p, ok := (*slot).(*ast.ParenExpr); ok {
+						slot = &p.X
+						continue
+					}
+					if u, ok := (*slot).(*ast.UnaryExpr); ok && u.Op == token.NOT {
+						slot = &u.X
+						continue
+					}
+					break
+				}
+				if call, ok := (*slot).(*ast.CallExpr); ok {
+					if pre, blk := in.inlineCallStmt(call, stack, depth, true); blk != nil && len(pre.names) == 1 {
+						out = append(out, pre.decls...)
+						out = append(out, blk)
+						*slot = pre.idents(call.Pos())[0]
+						in.rewriteStmt(x, stack, depth)
+						out = append(out, x)
+						continue
+					}
+				}
+			}
 		}
 		in.rewriteStmt(s, stack, depth)
 		out = append(out, s)
